@@ -3,67 +3,167 @@ import ErgoVerif.Lemmas.TM
 namespace ErgoVerif.LinkRace
 open ErgoVerif.TM
 
-theorem run_append (s : St) (a b : List Ev) : run s (a ++ b) = run (run s a) b := by
+theorem run_append (rc : Bool) (s : St) (a b : List Ev) : run rc s (a ++ b) = run rc (run rc s a) b := by
   induction a generalizing s with
   | nil => rfl
-  | cons e a ih => exact ih (step s e)
+  | cons e a ih => exact ih (step rc s e)
 
-theorem step_inv {s : St} (h : TM.Inv s.tm) (e : Ev) : TM.Inv (step s e).tm := by
+theorem onNode_unique (t : Target) (n m : Node) (h1 : t.onNode n = true) (h2 : t.onNode m = true) : n = m := by
+  cases t <;> simp [Target.onNode] at h1 h2 <;> (rw [← h1, ← h2])
+
+theorem lookup_dropNode_ne (c : List (Node × Nat)) (n m : Node) (h : m ≠ n) :
+    lookup m (dropNode n c) = lookup m c := by
+  induction c with
+  | nil => rfl
+  | cons a c ih =>
+    show lookup m (if a.1 = n then dropNode n c else a :: dropNode n c) = (if a.1 = m then some a.2 else lookup m c)
+    by_cases ha : a.1 = n
+    · have hm : ¬ a.1 = m := fun e => h (e.symm.trans ha)
+      rw [if_pos ha, if_neg hm]; exact ih
+    · rw [if_neg ha]
+      show (if a.1 = m then some a.2 else lookup m (dropNode n c)) = _
+      by_cases hm : a.1 = m
+      · rw [if_pos hm, if_pos hm]
+      · rw [if_neg hm, if_neg hm]; exact ih
+
+/-- the invariant of the race: the table is well formed; every request in flight points to the node of its target and
+is the only one of its consumer; and every recorded relation on a remote target is either covered by a connection with
+that node or belongs to a request that has not looked at the connection table again yet -/
+structure Inv (s : St) : Prop where
+  tm : TM.Inv s.tm
+  reqNode : ∀ r ∈ s.pending ++ s.unchecked, r.k.target.onNode r.n = true
+  covered : ∀ k ∈ s.tm.rel, ∀ n, k.target.onNode n = true → (s.connOf n).isSome = true ∨ ∃ r ∈ s.unchecked, r.k = k
+
+theorem init_inv : Inv init := ⟨TM.init_inv, by simp [init], by simp [init, TM.init]⟩
+
+theorem step_inv {s : St} (h : Inv s) (e : Ev) : Inv (step true s e) := by
   cases e with
-  | answered k => exact h
-  | add k =>
-    unfold step
-    by_cases hk : k ∈ s.pending
-    · simp only [hk, ↓reduceIte]; exact add_inv k h
-    · simp only [hk, ↓reduceIte]; exact h
-  | down n => exact (cleanupNode_spec h n).2.2
+  | up n =>
+    simp only [step]
+    split
+    · exact h
+    · refine ⟨h.tm, h.reqNode, ?_⟩
+      intro k hk m hm
+      rcases h.covered k hk m hm with hc | hr
+      · left
+        by_cases hmn : m = n
+        · subst hmn; simp [St.connOf, lookup]
+        · have hnm : ¬ n = m := fun e => hmn e.symm
+          simp only [St.connOf, lookup, hnm, if_false] at hc ⊢
+          exact hc
+      · exact Or.inr hr
+  | down n =>
+    simp only [step]
+    split
+    · exact h
+    · refine ⟨(cleanupNode_spec h.tm n).2.2, h.reqNode, ?_⟩
+      intro k hk m hm
+      change k ∈ (cleanupNode s.tm n).1.rel at hk
+      rw [(cleanupNode_spec h.tm n).1] at hk
+      obtain ⟨hk0, hkf⟩ := List.mem_filter.mp hk
+      have hnot : k.target.onNode n = false := by
+        simp only [Bool.and_eq_true, Bool.not_eq_eq_eq_not, Bool.not_true, targetOn] at hkf
+        exact hkf.2
+      have hmn : m ≠ n := by
+        intro e; subst e; rw [hm] at hnot; cases hnot
+      rcases h.covered k hk0 m hm with hc | hr
+      · left
+        simp only [St.connOf] at hc ⊢
+        rw [lookup_dropNode_ne s.conn n m hmn]; exact hc
+      · exact Or.inr hr
+  | answered k n =>
+    simp only [step]
+    split
+    · exact h
+    · split
+      · rename_i g _ hcond
+        simp only [Bool.and_eq_true] at hcond
+        refine ⟨h.tm, ?_, h.covered⟩
+        intro r hr
+        simp only [List.cons_append, List.mem_cons] at hr
+        rcases hr with rfl | hr
+        · exact hcond.1
+        · exact h.reqNode r hr
+      · exact h
+  | add r =>
+    simp only [step]
+    split
+    · rename_i hin
+      split
+      · refine ⟨h.tm, ?_, h.covered⟩
+        intro r' hr'
+        apply h.reqNode r'
+        rcases List.mem_append.mp hr' with h1 | h1
+        · exact List.mem_append.mpr (Or.inl (List.mem_of_mem_erase h1))
+        · exact List.mem_append.mpr (Or.inr h1)
+      · rename_i hnin
+        simp only [if_true]
+        refine ⟨add_inv r.k h.tm, ?_, ?_⟩
+        · intro r' hr'
+          rcases List.mem_append.mp hr' with h1 | h1
+          · exact h.reqNode r' (List.mem_append.mpr (Or.inl (List.mem_of_mem_erase h1)))
+          · rcases List.mem_cons.mp h1 with rfl | h2
+            · exact h.reqNode _ (List.mem_append.mpr (Or.inl hin))
+            · exact h.reqNode r' (List.mem_append.mpr (Or.inr h2))
+        · intro k hk m hm
+          change k ∈ (TM.add s.tm r.k).1.rel at hk
+          rw [add_rel, if_neg hnin] at hk
+          rcases List.mem_cons.mp hk with rfl | hk'
+          · exact Or.inr ⟨r, List.mem_cons_self, rfl⟩
+          · rcases h.covered k hk' m hm with hc | ⟨r', hr', hrk⟩
+            · exact Or.inl hc
+            · exact Or.inr ⟨r', List.mem_cons_of_mem _ hr', hrk⟩
+    · exact h
+  | recheck r =>
+    simp only [step]
+    split
+    · rename_i hin
+      have hsub : ∀ r' ∈ s.pending ++ s.unchecked.erase r, r'.k.target.onNode r'.n = true := by
+        intro r' hr'
+        apply h.reqNode r'
+        rcases List.mem_append.mp hr' with h1 | h1
+        · exact List.mem_append.mpr (Or.inl h1)
+        · exact List.mem_append.mpr (Or.inr (List.mem_of_mem_erase h1))
+      have hrn : r.k.target.onNode r.n = true := h.reqNode r (List.mem_append.mpr (Or.inr hin))
+      -- a relation other than r.k keeps its witness
+      have keep : ∀ k ∈ s.tm.rel, k ≠ r.k → ∀ m, k.target.onNode m = true →
+          (s.connOf m).isSome = true ∨ ∃ r' ∈ s.unchecked.erase r, r'.k = k := by
+        intro k hk hne m hm
+        rcases h.covered k hk m hm with hc | ⟨r', hr', hrk⟩
+        · exact Or.inl hc
+        · refine Or.inr ⟨r', ?_, hrk⟩
+          have : r' ≠ r := fun e => hne (by rw [← hrk, e])
+          exact (List.mem_erase_of_ne this).mpr hr'
+      split
+      · rename_i hconn
+        refine ⟨h.tm, hsub, ?_⟩
+        intro k hk m hm
+        by_cases hkr : k = r.k
+        · subst hkr
+          have : m = r.n := onNode_unique _ _ _ hm hrn
+          subst this
+          left
+          change (s.connOf r.n).isSome = true
+          rw [hconn]; rfl
+        · exact keep k hk hkr m hm
+      · split
+        · refine ⟨remove_inv r.k h.tm, hsub, ?_⟩
+          intro k hk m hm
+          change k ∈ (TM.remove s.tm r.k).1.rel at hk
+          rw [remove_rel] at hk
+          have hne : k ≠ r.k := fun e => by
+            subst e; exact (List.Nodup.not_mem_erase h.tm.1) hk
+          exact keep k (List.mem_of_mem_erase hk) hne m hm
+        · rename_i hnin
+          refine ⟨h.tm, hsub, ?_⟩
+          intro k hk m hm
+          have hne : k ≠ r.k := fun e => hnin (e ▸ hk)
+          exact keep k hk hne m hm
+    · exact h
 
-theorem run_inv (es : List Ev) : ∀ {s : St}, TM.Inv s.tm → TM.Inv (run s es).tm := by
+theorem run_inv (es : List Ev) : ∀ {s : St}, Inv s → Inv (run true s es) := by
   induction es with
   | nil => intro s h; exact h
   | cons e es ih => intro s h; exact ih (step_inv h e)
-
-/-- no relation on a target of node `n` is recorded -/
-def Clean (n : Node) (s : St) : Prop := ∀ k ∈ s.tm.rel, k.target.onNode n = false
-
-theorem down_clean {s : St} (h : TM.Inv s.tm) (n : Node) : Clean n (step s (.down n)) := by
-  intro k hk
-  change k ∈ (routeNodeDown s.tm n).1.rel at hk
-  rw [show (routeNodeDown s.tm n).1.rel = _ from (cleanupNode_spec h n).1] at hk
-  have := (List.mem_filter.mp hk).2
-  simp only [Bool.and_eq_true, Bool.not_eq_eq_eq_not, Bool.not_true, targetOn] at this
-  exact this.2
-
-theorem step_clean {n : Node} {s : St} (hi : TM.Inv s.tm) (hc : Clean n s) (e : Ev)
-    (he : ∀ k, e = .add k → k.target.onNode n = false) : Clean n (step s e) := by
-  cases e with
-  | answered k => exact hc
-  | add k =>
-    unfold step
-    by_cases hk : k ∈ s.pending
-    · simp only [hk, ↓reduceIte]
-      intro k' hk'
-      change k' ∈ (TM.add s.tm k).1.rel at hk'
-      rw [add_rel] at hk'
-      by_cases hm : k ∈ s.tm.rel
-      · rw [if_pos hm] at hk'; exact hc k' hk'
-      · rw [if_neg hm] at hk'
-        rcases List.mem_cons.mp hk' with rfl | h'
-        · exact he _ rfl
-        · exact hc k' h'
-    · simp only [hk, ↓reduceIte]; exact hc
-  | down m =>
-    intro k hk
-    change k ∈ (routeNodeDown s.tm m).1.rel at hk
-    rw [show (routeNodeDown s.tm m).1.rel = _ from (cleanupNode_spec hi m).1] at hk
-    exact hc k (List.mem_filter.mp hk).1
-
-theorem run_clean {n : Node} (es : List Ev) : ∀ {s : St}, TM.Inv s.tm → Clean n s →
-    (∀ e ∈ es, ∀ k, e = .add k → k.target.onNode n = false) → Clean n (run s es) := by
-  induction es with
-  | nil => intro s _ hc _; exact hc
-  | cons e es ih =>
-    intro s hi hc he
-    exact ih (step_inv hi e) (step_clean hi hc e (he e List.mem_cons_self)) (fun e' h' => he e' (List.mem_cons_of_mem _ h'))
 
 end ErgoVerif.LinkRace
